@@ -155,6 +155,11 @@ def replay_new_call(wj):
     return run_native("c18_new_subsystem_function_error", wj)
 
 
+def replay_expression_error(wj):
+    from replay.native import run_native
+    return run_native("c18_expression_error", wj, timeout=120)
+
+
 def h_check_expression(eng):
     it = Interpreter(eng)
     w = World(eng)
@@ -164,18 +169,31 @@ def h_check_expression(eng):
     dm = Rec(fields={"handle_exception": lambda i, e: Coro(lambda: handled.append(e), "handle_exception"), "name": "file.x.f"}, name="dm")
     result = SV(z3.Const("expr_value", ObjS))
 
+    # what evaluating a user's expression may do: give a value, raise any Exception - the builtin TimeoutError (which
+    # asyncio.TimeoutError IS since Python 3.11) and KeyError included - or be cancelled (BaseException: not a script error)
+    outcomes = ["value", "UserException", "TimeoutError", "KeyError", "CancelledError"]
+    outcome = outcomes[eng.choose(len(outcomes), "expr")]
+
     def ev(i, vars_):
         def th():
-            if eng.choose(2, "expr-raises") == 0:
-                raise exc("UserException", "bad")
+            if outcome != "value":
+                raise exc(outcome, "bad")
             return result
         return Coro(th, "eval")
+    from pyvc.interp import EXC
+    if "asyncio" not in bmod.env.vars or not isinstance(bmod.env.vars.get("asyncio"), PyModule):
+        bmod.env.vars["asyncio"] = PyModule("asyncio", {"CancelledError": EXC["CancelledError"], "TimeoutError": EXC["TimeoutError"]})
     dec = Rec(cls=bmod.env.vars["ExpressionDecorator"], fields={"dm": dm, "_ast_expression": Rec(fields={"eval": ev}), "name": "state_active"}, name="dec")
     k, v = run_catching(it, lambda: it.await_(it.call(it.getattr_(dec, "check_expression_vars"), [{"x": 1}], {})))
-    eng.cover("ran")
-    raised = any(p == "expr-raises=0" for p in eng.path_log)
-    eng.oblige(f"{U}/post.error-reported-once-via-the-manager-and-treated-as-false",
-               k == "ok" and ((len(handled) == 1 and v is False) if raised else (handled == [] and v is result)))
+    eng.cover(f"ran:{outcome}")
+    if outcome == "CancelledError":
+        eng.oblige(f"{U}/post.cancellation-propagates-unreported", k == "exc" and v.cls.name == "CancelledError" and handled == [])
+    else:
+        raised = outcome != "value"
+        ob = eng.oblige(f"{U}/post.error-reported-once-via-the-manager-and-treated-as-false",
+                        k == "ok" and ((len(handled) == 1 and v is False) if raised else (handled == [] and v is result)))
+        if ob.status == "refuted":
+            ob.witness = {"signature": f"expression-error-escapes:{outcome}", "exception": outcome}
     # DecoratorManager.handle_exception logs on the defining evaluator
     ctx = mk_logging_ctx(w, "dm_ast_ctx")
     dm2 = Rec(cls=amod.env.vars["DecoratorManager"], fields={"ast_ctx": ctx}, name="dm2")
@@ -239,7 +257,7 @@ def harnesses():
         Harness("TrigInfo._call_expression", h_call_expression, units=[(T_PY, "TrigInfo._call_expression")]),
         Harness("TrigInfo.call_action.do_func_call", h_legacy_action, units=[(T_PY, "TrigInfo.call_action")]),
         Harness("FunctionDecoratorManager._call", h_new_call, units=[(D_PY, "FunctionDecoratorManager._call")], replay=replay_new_call),
-        Harness("check_expression_vars", h_check_expression, units=[(DB_PY, "ExpressionDecorator.check_expression_vars"),
+        Harness("check_expression_vars", h_check_expression, replay=replay_expression_error, units=[(DB_PY, "ExpressionDecorator.check_expression_vars"),
                                                                   (f"{PKG}/decorator_abc.py", "DecoratorManager.handle_exception")]),
         Harness("GlobalContextMgr.load_file", h_load_file, units=[(GC_PY, "GlobalContextMgr.load_file")]),
         Harness("traceback-attribution", b_traceback, units=[(E_PY, "EvalExceptionFormatter")], kind="bounded"),
